@@ -203,6 +203,37 @@ def custom(ctx):
                                        case=dict(filter=v, kind="trivia"), impl=None))
             else:
                 stats["trivia_ok"] += 1
+    # (iii') the lexer model (Parse/Lex.v) against jaq's lexer: programs, their trivia variants, mutated and hand-made texts
+    LEX_EXTRA = [".", "..", ".a", ". a", ".a.b", "..a", "...", ".[", "$x", "$", "$ x", "@base64", "@", "@ x", "a::b", "a::$b", "a::@b", "a::", "a:: b", "::a", "1", "1.5", "1.", "1.e3", "1e", "1e+5", "1e-", "1E5", ".5",
+                 "0x10", "1_0", "\"a\"", "\"a\\nb\"", "\"\\u00e9\"", "\"\\ud800\"", "\"\\uZZZZ\"", "\"\\u12\"", "\"\\q\"", "\"a", "\"\\(1 + \"b\\(2)\")c\"", "\"\\(\"", "\"\\(1\"", "(", "(1", "(1]", "[{()}]", "{a:1}",
+                 "# c", "# c\n1", "1 # c \\\n 2\n3", "1 # c \\\\\n 2", "# c \\\r\n 2\n3", "1#\r\n2", "\t1\x0b\x0c2", "1\u00a02", "1\u20282", "1\u30002", "1\u200b2", "é", "1é", "a-b", "a - b", "--", "|=", "//=", "<=>", "=-1",
+                 "!==", "a?//b", "?//", ".a?", ";;", ",:", "a/**/b", "&", "§", "\U0001F4A3", "\x00", "1\x002", "'a'", "`", "~", "^", "\\"]
+    mut = []
+    alphabet = list(".$@\"\\()[]{}#:;,?|=!<>+-*/% \n\t\r_aZ09e") + ["::", "\\(", "\\u", "é", "\u00a0"]
+    for p_ in rng.sample(progs, min(len(progs), 200 if tier == "quick" else 3000)):
+        b = list(p_)
+        for _ in range(rng.choice([1, 1, 2, 3])):
+            i = rng.randrange(len(b) + 1)
+            k = rng.random()
+            if k < 0.5:
+                b[i:i] = list(rng.choice(alphabet))
+            elif k < 0.8 and b:
+                del b[min(i, len(b) - 1)]
+            elif b:
+                b[min(i, len(b) - 1)] = rng.choice(alphabet)
+        mut.append("".join(b))
+    texts = list(progs) + [vs[0] for vs in variants.values()] + LEX_EXTRA + mut
+    lres = core.run_cases(core.JAQH, [["x%d" % i, "tokens", t.encode()] for i, t in enumerate(texts)])
+    mres = jq.run_model_cases([["x%d" % i, "lex", t.encode()] for i, t in enumerate(texts)])
+    disagreements = []
+    for i, t in enumerate(texts):
+        a, m = lres.get("x%d" % i), mres.get("x%d" % i)
+        if a == m and isinstance(a, list):
+            stats["lex_agree"] = stats.get("lex_agree", 0) + 1
+            stats["lex_" + a[0]] = stats.get("lex_" + a[0], 0) + 1
+        else:
+            stats["lex_differ"] = stats.get("lex_differ", 0) + 1
+            disagreements.append(dict(case=dict(filter=t, kind="lexer"), impl=a, model=m))
     # (iv) rejects
     rc = core.run_cases(core.JAQH, [["r%d" % i, "run", p.encode(), [], ["null"], "4"] for i, p in enumerate(REJECT)])
     for i, p in enumerate(REJECT):
@@ -212,7 +243,7 @@ def custom(ctx):
         else:
             stats["reject_diff"] += 1
             violations.append(dict(key="accepts:" + p[:20], what="malformed program %r is not rejected at compile time: %s" % (p, sx.dumps(r)[:150]), case=dict(filter=p, kind="reject"), impl=r))
-    return dict(stats=stats, evaluations=len(chains) * 2 + len(variants) * 4 + len(REJECT), distinct=distinct, violations=violations, samples=samples,
+    return dict(stats=stats, evaluations=len(chains) * 2 + len(variants) * 4 + len(REJECT), distinct=distinct, violations=violations, disagreements=disagreements, samples=samples,
                 coverage=dict(operator_pairs=len(OPS) ** 2, operator_triples=len(triples), exhaustive=(tier != "quick")))
 
 
